@@ -1,5 +1,5 @@
 """Harness environment: inputs, assumptions and claims, in symbolic or concrete (replay) mode."""
-import z3, numpy as _np, math, time, json, os, sys, random, subprocess, hashlib, traceback, fractions
+import z3, numpy as _np, math, time, json, os, sys, random, subprocess, hashlib, traceback, fractions, re
 from . import core
 from .core import SR, SB, Ctx, rv, eqc, Fraction
 
@@ -38,6 +38,15 @@ class Env:
         self.box = 16
         self.ladder = True
         self.exc_expected = ()
+        self.known_patterns = []
+        try:
+            kf = json.load(open(os.path.join(VERIF, 'known_findings.json')))
+            self.known_patterns = [k['key'] for k in kf if k.get('property') == prop and k.get('status') == 'known']
+        except Exception:
+            pass
+
+    def _new_violations(self):
+        return len([v for v in self.violations if not v.get('known')])
 
     # ------------------------------------------------------------------ inputs
     @property
@@ -235,8 +244,8 @@ class Env:
             return
         if key in self.violated_keys and not canary:
             return
-        if len(self.violations) >= 3 and not canary:
-            # this instance already has three replayed violations: further obligations are listed, not decided
+        if self._new_violations() >= 3 and not canary:
+            # this instance already has three replayed violations (not counting listed known findings): further obligations are listed, not decided
             self.results.append(dict(key=key, verdict='not-searched', s=0, path='', canary=False))
             return
         ctx = self.ctx
@@ -320,7 +329,7 @@ class Env:
             return
         # sat or unknown: look for a replayable counterexample
         model = sv.model() if r == 'sat' else None
-        if len(self.violations) >= 3:
+        if self._new_violations() >= 3:
             # this instance already has replayed violations: further failing obligations are listed, not searched
             rec['verdict'] = 'not-searched'
             self.results.append(rec)
@@ -483,7 +492,8 @@ class Env:
                 self.last_replay_key = failed[0]
             else:
                 self.last_replay_key = key
-            self.violations.append(dict(key=self.last_replay_key, replay=path, failed=failed, exc=res.get('exc')))
+            full = '%s:%s' % (self.inst.get('name', ''), self.last_replay_key)
+            self.violations.append(dict(key=self.last_replay_key, replay=path, failed=failed, exc=res.get('exc'), known=any(re.fullmatch(p_, full) for p_ in self.known_patterns)))
             return path
         os.unlink(path)
         return None
